@@ -18,7 +18,7 @@ GEN_DEPS = ["GenC12Mass"]
 RULE = ("cases: (model, rectangle, index subset); models = dyadic step margins x {independent, completely dependent} (exact) and "
         "HEM/Merton/CGMY/VG margins x {Clayton, independent, dependent} (tolerance); rectangles cover every combination of interval "
         "kinds per coordinate (negative/positive/straddling x finite/-inf/+inf/end point 0) that does not contain the origin; index "
-        "subsets None, full, pairs, singles; a rectangle with end point 0 on an infinite-activity margin (U_i(0)=inf) may have mass +inf (accepted), nan only if every coordinate interval touches 0 (true mass infinite); non-trivial = distinct (model, a, b, indices) with a non-degenerate rectangle")
+        "subsets None, full, pairs, singles; end points / split points written as the IEEE negative zero -0.0 must behave as 0.0 in every call order (fresh and reused model); a rectangle with end point 0 on an infinite-activity margin (U_i(0)=inf) may have mass +inf (accepted), nan only if every coordinate interval touches 0 (true mass infinite); non-trivial = distinct (model, a, b, indices) with a non-degenerate rectangle")
 MODELLED = [
     "_mass_nd, margin_tail_integral, tail_integrals, marginal_tail_integral, volume, margin, Independent/DependentComponentsCopula: "
     "hand models (Model/MassNd.v, Model/Copula.v) tied by exact vm_compute correspondence on dyadic step margins",
@@ -165,6 +165,22 @@ def correspond(res):
                     if cop[0] == "indep" and not all(x <= 0 <= y for x, y in zip(aa, bb)):
                         _indep_truth(res, model, list(range(dim)) if ind is None else ind, aa, bb, vf, desc, [False] * dim, exact=True, viol=viol)
                     cases.append(f"({elist(aa)}, {elist(bb)}, {idxlit(ind)}, {qlit(vf)}, {qlit(vn)})")
+                # IEEE negative zero as an end point (e.g. from -np.array([0.0, b])): same rectangle, must give the same mass as +0.0;
+                # evaluated on a FRESH model (the lru cache conflates 0.0 and -0.0) and sent to the Coq model as the rational 0
+                nz = [(aa, bb, ind) for (aa, bb, ind, kinds) in evals if any(x == 0 for x in aa + bb)]
+                rng.shuffle(nz)
+                fresh = CM.make_model(margins, cop)
+                for (aa, bb, ind) in nz[:25 if tier == "quick" else 120]:
+                    na = tuple(-0.0 if x == 0 else x for x in aa); nb = tuple(-0.0 if x == 0 else x for x in bb)
+                    vf = call_mass(fresh, "fast", na, nb, ind); vn = call_mass(fresh, "nd", na, nb, ind)
+                    res.count(("negzero-exact", dim, k, cop[0], aa, bb, ind), kind="negative-zero end point (exact)")
+                    want = vals[(aa, bb, tuple(ind) if ind else None)]
+                    if (vf, vn) != want:
+                        viol("a rectangle written with -0.0 has a different mass than the same rectangle written with 0.0", kind="negzero",
+                             margins=margins, copula=cop, a=list(aa), b=list(bb), indices=ind, order="fresh model, -0.0 first",
+                             with_negative_zero=[vf, vn], with_zero=list(want))
+                    if math.isfinite(vf) and math.isfinite(vn):
+                        cases.append(f"({elist(na)}, {elist(nb)}, {idxlit(ind)}, {qlit(vf)}, {qlit(vn)})")
                 # lru cache / order independence: re-evaluate in shuffled order on the same object
                 order = list(evals)
                 rng.shuffle(order)
@@ -276,6 +292,7 @@ def correspond(res):
                    tab_cases))
     if tier == "thorough":
         _density_oracle(res, viol)
+    _negative_zero_oracle(res, rng, viol)
     _end_to_end(res, rng, viol)
 
     # ================= Coq side ================================================================================
@@ -427,6 +444,63 @@ def _inverse_oracle(res, model, desc0, dim, viol):
                      tail_of_inverse=y2, **desc0)
 
 
+def _negative_zero_oracle(res, rng, viol):
+    """-0.0 == 0.0: a rectangle / split point / tail-integral argument written with the IEEE negative zero must give exactly what the
+    ordinary zero gives, in both call orders (the lru cache of marginal_tail_integral keys 0.0 and -0.0 alike), on a fresh and on a
+    reused model.  Finite-activity margins and any copula (in scope: another coordinate stays away from 0)."""
+    configs = [(2, [["hem"], ["merton"]], ["clayton", 0.7, 0.3]), (2, [["merton2"], ["hem"]], ["indep"]), (2, [["hem2"], ["merton"]], ["dep"]),
+               (3, [["hem"], ["merton"], ["hem2"]], ["clayton", 0.7, 0.3]), (3, [["merton"], ["hem2"], ["merton2"]], ["dep"])]
+    S, N = (0.05, 0.2), (-0.2, -0.03)
+    for dim, margins, cop in configs:
+        desc0 = dict(margins=margins, copula=cop)
+        rects = []
+        for k in range(dim):
+            others = [S if j % 2 == 0 else N for j in range(dim)]
+            for iv in ((-0.1, 0.0), (0.0, 0.1), (-INF, 0.0), (0.0, INF)):
+                ivs = list(others); ivs[k] = iv
+                rects.append((tuple(x[0] for x in ivs), tuple(x[1] for x in ivs)))
+        subs = [None] + ([[0, 1], [0, 2], [1, 2]] if dim == 3 else [])
+        for (a, b) in rects:
+            for ind in subs:
+                aa, bb = restrict(a, b, ind, dim)
+                if not any(x == 0 for x in aa + bb) or contains_origin(aa, bb):
+                    continue
+                na = tuple(-0.0 if x == 0 else x for x in aa); nb = tuple(-0.0 if x == 0 else x for x in bb)
+                out = {}
+                with np.errstate(all="ignore"):
+                    m1 = CM.make_model(margins, cop)          # fresh, ordinary zero first, then -0.0 on the same object
+                    out["zero_first"] = (call_mass(m1, "fast", aa, bb, ind), call_mass(m1, "nd", aa, bb, ind))
+                    out["negzero_after_zero"] = (call_mass(m1, "fast", na, nb, ind), call_mass(m1, "nd", na, nb, ind))
+                    m2 = CM.make_model(margins, cop)          # fresh, -0.0 first, then the ordinary zero on the same object
+                    out["negzero_first"] = (call_mass(m2, "fast", na, nb, ind), call_mass(m2, "nd", na, nb, ind))
+                    out["zero_after_negzero"] = (call_mass(m2, "fast", aa, bb, ind), call_mass(m2, "nd", aa, bb, ind))
+                res.count(("negzero", dim, str(cop), aa, bb, ind), kind="negative-zero end point (call orders)")
+                ref = out["zero_first"]
+                bad = {k: v for k, v in out.items() if v != ref}
+                if bad or ref[0] < -TOL_ABS or not close(ref[0], ref[1], 1e-3):
+                    viol("a rectangle written with -0.0 has a different mass than the same rectangle written with 0.0", kind="negzero",
+                         a=list(aa), b=list(bb), indices=ind, order=sorted(bad) or ["zero_first"], with_zero=list(ref),
+                         with_negative_zero=[list(v) for v in bad.values()][:2], **desc0)
+        # split of a straddling interval at -0.0 and the tail integrals themselves
+        with np.errstate(all="ignore"):
+            m = CM.make_model(margins, cop)
+            a = tuple([-0.1] + [(S if j % 2 == 0 else N)[0] for j in range(1, dim)]); b = tuple([0.1] + [(S if j % 2 == 0 else N)[1] for j in range(1, dim)])
+            left = call_mass(m, "fast", a, (-0.0,) + b[1:], None); right = call_mass(m, "fast", (-0.0,) + a[1:], b, None)
+            whole = call_mass(m, "fast", a, b, None)
+        res.count(("negzero-split", dim, str(cop)), kind="negative-zero split point")
+        if not close(whole, left + right, max(abs(left), abs(right), 1e-3)) or min(left, right) < -TOL_ABS:
+            viol("mass is not additive / is negative when a coordinate interval is split at -0.0", kind="negzero_split", a=list(a), b=list(b),
+                 whole=whole, left=left, right=right, **desc0)
+        for i in range(dim):
+            m = CM.make_model(margins, cop)
+            un = float(m.marginal_tail_integral(i, -0.0))
+            m = CM.make_model(margins, cop)
+            up = float(m.marginal_tail_integral(i, 0.0))
+            res.count(("negzero-tail", dim, str(cop), i), kind="negative-zero tail integral")
+            if un != up:
+                viol("marginal tail integral at -0.0 differs from the one at 0.0", kind="negzero_tail", coordinate=i, at_negative_zero=un, at_zero=up, **desc0)
+
+
 E2E_HEADER = """From Coq Require Import Reals List Bool Lra.
 From Interval Require Import Tactic.
 From RV Require Import Base.RB Base.ExtNum Model.Copula Gen.GenC12Mass Model.MassNd.
@@ -553,7 +627,16 @@ def replay(path):
                                   call_mass(model, "fast", tuple(ar), b, None))
             print(f"whole = {whole!r}, left + right = {left!r} + {right!r} = {left + right!r}")
             return 0 if close(whole, left + right, max(abs(left), abs(right), 1e-3)) else 1
-        if kind in ("margin", "submargin", "ui_inf", "inverse", "density"):
+        if kind == "negzero":
+            na = tuple(-0.0 if x == 0 else x for x in a); nb = tuple(-0.0 if x == 0 else x for x in b)
+            m1 = CM.make_model(data["margins"], data["copula"])
+            z = (call_mass(m1, "fast", a, b, ind), call_mass(m1, "nd", a, b, ind))
+            m2 = CM.make_model(data["margins"], data["copula"])
+            n = (call_mass(m2, "fast", na, nb, ind), call_mass(m2, "nd", na, nb, ind))
+            zz = (call_mass(m2, "fast", a, b, ind), call_mass(m2, "nd", a, b, ind))
+            print(f"fresh model, 0.0: {z}; fresh model, -0.0: {n}; then 0.0 on the same model: {zz}")
+            return 0 if z == n == zz else 1
+        if kind in ("margin", "submargin", "ui_inf", "inverse", "density", "negzero_split", "negzero_tail"):
             print("replay: re-run ./check C12 to re-evaluate this class of input (all inputs are in the file)")
             return 1
     return 1
